@@ -41,6 +41,10 @@ CLAIMED = {
             'bounded, solver-complete inside the bound: for every real data matrix on the shape grid and EVERY loop-head state, the pass that exits yields a unit loading, scores = projection, residual orthogonal to it, the orthogonality invariant step, variance bookkeeping, dmodx; predictors = the training step / the back-transformation, for 1..2 worker threads',
             'one pass from any state + induction replaces whole runs; convergence (hence ordering of variances and the 100 % total) outside; exact reals; scaling -1 for the pass (other options compose with C10 through the single MatrixPreprocess call); nonzero divisors',
             'DESIGN.md 5/C01'),
+    'C03': ('CBMC symbolic execution of the real LVCalc (two mandatory passes from arbitrary loop-head states), PLS() assembly with LVCalc havoced, PLSYPredictor and PLSScorePredictor -> SMT VC over the reals -> z3; orthogonality closed by opaque-variable lemma obligations',
+            'bounded, solver-complete inside the bound: t = Xw, unit loadings, X and Y deflation, inner relation, the code facts behind score/weight orthogonality (1 response), layout of recalculated responses and residuals for ny<=3 x nlv<=3, predictors for every presence combination of stored means/scales of either sign',
+            'one latent variable from any loop state + induction; exact reals; scaling -1 inside PLS(); nonzero divisors; orthogonality facts for >= 2 responses attempted in thorough only',
+            'DESIGN.md 5/C03'),
 }
 NA = {
     'C16': 'behaviour lives inside SQLite and libc decimal formatting (FFI + file I/O); nothing of it is source in /repo that could be executed symbolically - an encoding would verify a hand-written SQL fake, not the code',
